@@ -25,7 +25,7 @@ def selftest():
 
 def cases(ctx):
     t = ctx.tier == "thorough"
-    yield from sc.gen_cases(ctx, sighash.LEGACY_FLAGS, 1200 if t else 40, 120 if t else 10)
+    yield from sc.gen_cases(ctx, sighash.LEGACY_FLAGS, 8000 if t else 40, 600 if t else 10)
 
 
 def judge(ctx, case):
